@@ -1394,6 +1394,66 @@ def _default_or(fa, e, at, param, default):
     return False
 
 
+def _bind_pattern(target, value, out):
+    """bind the names of an unpacking target to the parts of a display: `name, (a, b)` against `'k', (x, 'y')`"""
+    if isinstance(target, ast.Name):
+        out[target.id] = value
+        return True
+    if isinstance(target, (ast.Tuple, ast.List)) and isinstance(value, (ast.Tuple, ast.List)) and len(target.elts) == len(value.elts) \
+            and not any(isinstance(x, ast.Starred) for x in list(target.elts) + list(value.elts)):
+        return all(_bind_pattern(t, v, out) for t, v in zip(target.elts, value.elts))
+    return False
+
+
+def spread_entries(fa, e, at):
+    """{constant key: value expression} of a mapping that is spread into a call (`**m`), when it can be written out: a
+    display / dict(k=v) with constant keys, or a dict comprehension over the items of such a display (a table of the
+    arguments), each entry written out with the table row substituted and `getattr(x, 'name')` read as `x.name`.
+    None when it cannot."""
+    try:
+        x = strip_cast(fa.expand(e, at))
+    except AnalysisError:
+        x = strip_cast(e)
+    sh = map_shape(x) if not isinstance(x, ast.DictComp) else None
+    if sh is not None and sh[0] is None and not sh[2]:
+        return dict(sh[1])
+    if not (isinstance(x, ast.DictComp) and len(x.generators) == 1 and not x.generators[0].ifs):
+        return None
+    g = x.generators[0]
+    it = strip_cast(g.iter)
+    rows = None
+    if isinstance(it, ast.Call) and A.call_attr(it) == "items" and not it.args and isinstance(strip_cast(A.call_recv(it)), ast.Dict):
+        tb = strip_cast(A.call_recv(it))
+        if all(k is not None for k in tb.keys):
+            rows = [ast.Tuple(elts=[k, v], ctx=ast.Load()) for k, v in zip(tb.keys, tb.values)]
+    elif isinstance(it, (ast.Tuple, ast.List)):
+        rows = list(it.elts)
+    if rows is None:
+        return None
+    out = {}
+    for row in rows:
+        env = {}
+        if not _bind_pattern(g.target, row, env):
+            return None
+
+        class T(ast.NodeTransformer):
+            def visit_Name(self, n):
+                return copy.deepcopy(env[n.id]) if isinstance(n.ctx, ast.Load) and n.id in env else n
+
+            def visit_Call(self, n):
+                self.generic_visit(n)
+                if isinstance(n.func, ast.Name) and n.func.id == "getattr" and len(n.args) == 2 and not n.keywords and A.const_str(n.args[1]) \
+                        and A.const_str(n.args[1]).isidentifier():
+                    return ast.Attribute(value=n.args[0], attr=A.const_str(n.args[1]), ctx=ast.Load())
+                return n
+
+        k = A.const_str(T().visit(copy.deepcopy(x.key)))
+        if k is None or k in out:
+            return None
+        out[k] = ast.fix_missing_locations(T().visit(copy.deepcopy(x.value)))
+    return out
+
+
 def reserved_key_clause(fl):
     """C16.R1 / C04.R3: the context args are put on the hash input under the reserved key, before the hash is taken,
     exactly when they are non-empty.  Returns (ok, where, stores, shapes, n_sites)."""
@@ -1864,6 +1924,13 @@ def check(ck):
     cw = FA(ck, "memento.MementoFunction.clone_with")
     ctor = cw.one(cw.calls("MementoFunction"), "MementoFunction(...) in clone_with")
     kc = A.kwarg(ctor, "context")
+    if kc is None and cw.nodes(ctor):
+        # the constructor arguments may be handed over as a spread mapping written from a table of (requested, fallback) rows
+        for k_ in ctor.keywords:
+            if k_.arg is None:
+                ent = spread_entries(cw, k_.value, cw.nodes(ctor)[0])
+                if ent is not None and "context" in ent:
+                    kc = ent["context"]
     okk = kc is not None and "context" in cw.fi.params and _default_or(cw, kc, cw.nodes(ctor)[0], "context", "self.context")
     ck.ob(R3, cw.key(ctor, "context-param"), okk, "clone_with passes the given context to the clone" if okk else
           "clone_with does not pass `context or self.context` to the clone", cw.where(ctor))
